@@ -418,6 +418,30 @@ def parsePropsLegacy {κ α : Type} (inv : Policy) (records : OutProp κ α → 
   | .error e => .error e
   | .ok (l, dirty) => if dirty then .error .collected else .ok l
 
+/-! ### nested declared types -/
+
+structure Opts where
+  items : Policy
+  keys : Policy
+  values : Policy
+
+def Opts.strict : Opts := ⟨.throw, .throw, .throw⟩
+
+/-- declared types: a leaf converter, a sequence of a type, a mapping of two types / of a key type only -/
+inductive Ty (α : Type) where
+  | leaf (p : Parser α)
+  | seq (k : SeqKind) (elem : Ty α)
+  | map (key val : Ty α)
+  | mapK (key : Ty α)
+
+/-- the converter of a declared type under one `Options` object: the same three policies govern every
+level of nesting (`context.enter` passes the options down, options.py:389-404). -/
+def parseTy {α : Type} (W : World α) (o : Opts) : Ty α → Parser α
+  | .leaf p => p
+  | .seq k t => fun v => (parseSeqRule W k o.items (parseTy W o t) v).toOption
+  | .map tk tv => fun v => (parseMapRule W o.keys o.values (parseTy W o tk) (some (parseTy W o tv)) v).toOption
+  | .mapK tk => fun v => (parseMapRule W o.keys o.values (parseTy W o tk) none v).toOption
+
 /-! ### Specification — the property's own vocabulary, independent of the code above -/
 
 /-- an element is *offending* for a converter when the converter rejects it -/
